@@ -634,3 +634,350 @@ def c14(ctx):
                    'enumerated exhaustively: 3 profiles x 5 situations (idle, connecting, connected, idle again after a refused CONNACK, idle again after a loss) x 10 API calls (all argument shapes) '
                    'and x 17 packet types (all 14 plus variants); plus the same probes at random points of seeded walks (wrong-state calls and packets are a standing part of every walk)',
                    weights=dict(garbage=0, connect_bad=0, disconnect=2, badcall=0), extra=extra, allow_api_after_lost=True)
+
+
+# ---------------------------------------------------------------------------------------------
+# C20: boundary table, enumerated
+# ---------------------------------------------------------------------------------------------
+def c20(ctx):
+    S65535 = 's:' + '61' * 65535
+    S65536 = 's:' + '61' * 65536
+    M65536 = 's:' + 'c3b1' * 32768          # 32768 characters, 65536 bytes
+    def calls(p):
+        out = []
+        for v in ('0', '1', '2', '8', '16', '17', '-1', '100', 'n'):
+            out.append(('setwin %d %s' % (p, v), True))
+        for v in ('0', '1', '2', '512', '1024', '1025', '-3', 'n'):
+            out.append(('settimeout %d %s' % (p, v), True))
+        for bw in ('0', '-1', '1', '1/2', '10000'):
+            for f in ('0', '-1', '1/2', '1', '3'):
+                out.append(('setbw %d %s %s' % (p, bw, f), True))
+        # publish
+        for q in ('-1', '0', '1', '2', '3', '7'):
+            out.append(('publish %d %s b:41 %s 0' % (p, s_tok('t'), q), True))
+        for pl in ('s:', 's:41', 'b:', 'b:00ff', 'i:5', 'n', 'y:4142', 'f:1.5', 'l:', 'o:'):
+            for q in ('0', '1'):
+                out.append(('publish %d %s %s %s 0' % (p, s_tok('t'), pl, q), True))
+        for t in (S65535, S65536, M65536, 'n', 'i:3'):
+            out.append(('publish %d %s b:41 1 0' % (p, t), True))
+        out.append(('publish %d u:61eda08062 b:41 1 0' % p, False))     # lone surrogate: Python-only oracle
+        # subscribe / unsubscribe
+        tk = s_tok('t').replace(':', '=')
+        for q in ('-1', '0', '2', '3'):
+            out.append(('subscribe %d %s %s' % (p, s_tok('t'), q), True))
+            out.append(('subscribe %d t:%s,%s 0' % (p, tk, q), True))
+            out.append(('subscribe %d l:%s,0;%s,%s 0' % (p, tk, tk, q), True))
+        for a in ('i:5', 'n', 'f:1.5', 'l:i=5,0', 'l:n,1', 't:n,0', S65536, 'l:%s,1' % S65536.replace(':', '='), S65535):
+            out.append(('subscribe %d %s 0' % (p, a), True))
+        for a in ('i:5', 'n', 't:%s,0' % tk, 'L:i=5', 'L:n', S65536, 'L:%s;%s' % (tk, S65536.replace(':', '=')), S65535, s_tok('t'), 'L:%s;%s' % (tk, tk)):
+            out.append(('unsubscribe %d %s' % (p, a), True))
+        return out
+
+    def connects(p):
+        out = []
+        C = s_tok('c')
+        for wq in ('-1', '0', '2', '3'):
+            out.append('connect %d %s 0 311 1 %s %s %s 0' % (p, C, s_tok('w'), s_tok('m'), wq))
+        for ka in ('-1', '0', '1', '65535', '65536'):
+            out.append('connect %d %s %s 311 1' % (p, C, ka))
+        out.append('connect %d %s 0 31 1' % (p, s_tok('c' * 23)))
+        out.append('connect %d %s 0 31 1' % (p, s_tok('c' * 24)))
+        out.append('connect %d %s 0 311 1' % (p, s_tok('c' * 24)))
+        out.append('connect %d %s 0 31 1' % (p, s_tok('ñ' * 23)))
+        out.append('connect %d %s 0 x 1' % (p, C))
+        out.append('connect %d %s 0 311 1 %s n 0 0' % (p, C, s_tok('w')))
+        out.append('connect %d %s 0 311 1 n %s 0 0' % (p, C, s_tok('m')))
+        out.append('connect %d %s 0 311 1 n n 0 0 n %s' % (p, C, s_tok('pw')))
+        out.append('connect %d %s 0 311 1 n n 0 0 %s %s' % (p, C, s_tok('u'), s_tok('pw')))
+        for pos in range(5):
+            for big in (S65535, S65536):
+                args = ['n', 'n', '0', '0', 'n', 'n']
+                cid = C
+                if pos == 0: cid = big
+                elif pos == 1: args[0] = big; args[1] = s_tok('m')
+                elif pos == 2: args[0] = s_tok('w'); args[1] = big
+                elif pos == 3: args[4] = big
+                else: args[4] = s_tok('u'); args[5] = big
+                out.append('connect %d %s 0 311 1 %s' % (p, cid, ' '.join(args)))
+        return out
+
+    res = Result()
+    res.rule = ('enumerated exhaustively: each argument of setWindowSize/setTimeout/setBandwith/connect/publish/subscribe/unsubscribe at lowest/highest accepted, first rejected on both sides, '
+                'interior values, wrong types and None, in every profile and state in which the call is otherwise allowed (with requests pending, so that "nothing changes" is observable); '
+                'judged by the C20 monitor (rejected with ValueError/TypeError, no write, no timer, same state; valid accepted) and compared with the Lean model')
+    res.exhaustive = True
+    if ctx.get('replay'):
+        run_scenarios('C20', dict(ctx, noshrink=True), [('replay', ctx['replay']['scenario'])], res, label='replay')
+        return res
+    scen, scen_nomodel = [], []
+    for prof in (1, 2, 3):
+        stages = {
+            'idle': ['factory %d' % prof, 'build a0', 'sethandlers 0 7'],
+            'connecting': ['factory %d' % prof, 'build a0', 'sethandlers 0 7', 'connect 0 %s 0 311 0' % s_tok('c')],
+            'connected': ['factory %d' % prof, 'build a0', 'sethandlers 0 7', 'connect 0 %s 5 31 0' % s_tok('c'), 'recv 0 20020000', 'setwin 0 16']
+                         + (['publish 0 %s b:41 1 0' % s_tok('t'), 'publish 0 %s b:42 2 0' % s_tok('u')] if prof != 1 else []) + (['subscribe 0 %s 1' % s_tok('s')] if prof != 2 else []),
+        }
+        for name, pre in stages.items():
+            for (c, model_ok) in calls(0):
+                (scen if model_ok else scen_nomodel).append(('%d-%s' % (prof, name), pre + [c]))
+            if name == 'idle':
+                for c in connects(0):
+                    scen.append(('%d-connect' % prof, pre + [c, 'publish 0 %s b:41 0 0' % s_tok('t')]))
+    corpus = corpus_scenarios('C20')
+    run_scenarios('C20', ctx, corpus, res, label='corpus')
+    run_scenarios('C20', dict(ctx, noshrink=True), scen, res, label='enumerated')
+    run_scenarios('C20', dict(ctx, noshrink=True), scen_nomodel, res, compare_model=False, label='enumerated (python-only oracle)')
+    res.extra['enumerated_calls'] = len(scen) + len(scen_nomodel)
+    # metamorphic oracle: a rejected setter leaves nothing behind -- what follows is identical to the run without it
+    nmeta = 0
+    for prof in (2, 3, 1):
+        pre = ['factory %d' % prof, 'build a0', 'sethandlers 0 7', 'connect 0 %s 0 311 0' % s_tok('c'), 'recv 0 20020000', 'setwin 0 3', 'settimeout 0 2', 'setbw 0 1000 3']
+        probe = ['jit 100/1024'] + (['publish 0 %s b:%s 1 0' % (s_tok('t'), '5a' * 300), 'publish 0 %s b:%s 2 0' % (s_tok('t'), '5b' * 100), 'publish 0 %s b:41 1 0' % s_tok('u'),
+                                     'publish 0 %s b:41 1 0' % s_tok('v')] if prof != 1 else []) + (['subscribe 0 %s 1' % s_tok('s'), 'subscribe 0 %s 1' % s_tok('s2'),
+                                     'subscribe 0 %s 1' % s_tok('s3'), 'subscribe 0 %s 1' % s_tok('s4')] if prof != 2 else []) + ['fire 1', 'fire 2']
+        ref = [o for (_, o) in realworld.run_scenario(pre + probe)][len(pre):]
+        for bad in ['setwin 0 0', 'setwin 0 17', 'setwin 0 n', 'settimeout 0 0', 'settimeout 0 1025', 'settimeout 0 n', 'setbw 0 0 2', 'setbw 0 -1 2', 'setbw 0 5 0', 'setbw 0 7 -1', 'setbw 0 1/2 0']:
+            sc = pre + [bad] + probe
+            got = [o for (_, o) in realworld.run_scenario(sc)][len(pre) + 1:]
+            nmeta += 1; res.evaluations += 1; res.programs += 1
+            if got != ref:
+                i = next(j for j, (a, b) in enumerate(zip(got, ref)) if a != b)
+                res.violations.append(dict(signature='not-atomic-later', scenario=sc,
+                                           what='rejected `%s` changed later behaviour: step `%s` gives %s, without the rejected call %s' % (bad, probe[i][:40], got[i][:4], ref[i][:4])))
+    res.extra['metamorphic_rejected_setters'] = nmeta
+    res.sample(scen[5][1][-3:]); res.sample(scen[-1][1][-3:])
+    # the same calls at random points of seeded walks
+    ws = walks(ctx, 60 if ctx['tier'] == 'quick' else 2000, 50, 0, weights=dict(badcall=12, connect_bad=5, setwin=5, settimeout=4, setbw=4, garbage=0, disconnect=0))
+    run_scenarios('C20', ctx, ws, res)
+    return res
+
+
+# ---------------------------------------------------------------------------------------------
+# C19: two addresses through one factory
+# ---------------------------------------------------------------------------------------------
+def _c19_owner_maps(trace):
+    """from a combined trace: protocol -> address, timer id -> owner protocol, deferred id -> protocol"""
+    addr_of, timer_owner, dfd_owner = {}, {}, {}
+    n = 0
+    for op, obs in trace[1:]:
+        t = op.split()
+        if t[0] == 'build':
+            addr_of[n] = t[1]; n += 1
+        for o in obs:
+            if o.startswith('timers'):
+                for tid, info in monitors.parse_timers(o).items():
+                    timer_owner[tid] = info['owner']
+            if o.startswith('ret pending'):
+                dfd_owner[int(o.split()[2])] = int(t[1])
+    return addr_of, timer_owner, dfd_owner
+
+
+def _canon_pkt(b, idmap):
+    pk = mqttparse.parse(b)
+    if pk is None:
+        return ('raw', b.hex())
+    d = {k: v for k, v in pk.items() if k not in ('raw',)}
+    if d.get('id') is not None and pk['type'] in ('PUBLISH', 'PUBREL', 'SUBSCRIBE', 'UNSUBSCRIBE'):
+        d['id'] = idmap.setdefault(d['id'], len(idmap) + 1)
+    return tuple(sorted((k, repr(v)) for k, v in d.items()))
+
+
+def _c19_view(trace, A, addr_of, timer_owner, dfd_owner):
+    """canonical per-step observation log of address A; plus the list of interference events (A-effects in B-steps)"""
+    prs = sorted(p for p, a in addr_of.items() if a == A)
+    prank = {p: i for i, p in enumerate(prs)}
+    trank, drank, idmap = {}, {}, {}
+    view, interference = [], []
+    prev_timers = {}
+    for idx, (op, obs) in enumerate(trace[1:], 1):
+        t = op.split()
+        mine = False
+        if t[0] == 'build':
+            mine = t[1] == A
+        elif t[0] == 'fire':
+            mine = timer_owner.get(int(t[1])) in prank
+        elif t[0] in ('jit', 'setid'):
+            mine = False
+        elif len(t) > 1 and t[1].isdigit():
+            mine = int(t[1]) in prank
+        ev = []
+        now = 0
+        for o in obs:
+            if o.startswith('now'):
+                now = int(o.split()[1])
+        for o in obs:
+            k = o.split()
+            if k[0] == 'w' and int(k[1]) in prank:
+                ev.append(('w', prank[int(k[1])], _canon_pkt(bytes.fromhex(k[2]) if k[2] != '-' else b'', idmap)))
+            elif k[0] in ('close', 'abort', 'onconn') and int(k[1]) in prank:
+                ev.append((k[0], prank[int(k[1])]))
+            elif k[0] == 'ondisc' and int(k[1]) in prank:
+                ev.append(('ondisc', prank[int(k[1])], k[2]))
+            elif k[0] == 'pub' and int(k[1]) in prank:
+                ev.append(('pub', prank[int(k[1])]) + tuple(k[2:]))
+            elif k[0] == 'fired' and dfd_owner.get(int(k[1])) in prank:
+                d = drank.setdefault(int(k[1]), len(drank))
+                val = k[3]
+                if k[2] == 'ok' and val.startswith('i') and dfd_owner is not None:
+                    val = 'i#%d' % idmap.setdefault(int(val[1:]), len(idmap) + 1)
+                ev.append(('fired', d, k[2], val))
+            elif k[0] == 'ret' and mine:
+                if k[1] == 'pending':
+                    d = drank.setdefault(int(k[2]), len(drank))
+                    ev.append(('ret', 'pending', d, '-' if k[3] == '-' else '#%d' % idmap.setdefault(int(k[3]), len(idmap) + 1)))
+                else:
+                    ev.append(tuple(k))
+            elif k[0] in ('raised', 'esc', 'nofire') and mine:
+                ev.append(tuple(k))
+            elif k[0] == 'states':
+                ev.append(('states', ''.join(k[1][p] for p in prs if len(k) > 1 and p < len(k[1]))))
+            elif k[0] == 'timers':
+                cur = {tid: info for tid, info in monitors.parse_timers(o).items() if info['owner'] in prank}
+                for tid in sorted(cur):
+                    if tid not in trank:
+                        trank[tid] = len(trank)
+                        ev.append(('new-timer', trank[tid], cur[tid]['kind'], prank[cur[tid]['owner']], cur[tid]['due']))
+                ev.append(('pending', tuple(sorted(trank[tid] for tid in cur))))
+                if not mine and set(cur) != set(prev_timers):
+                    interference.append((idx, op, 'pending timers of %s changed' % A))
+                prev_timers = cur
+        if mine:
+            view.append((op.split()[0], ev))
+        else:
+            bad = [e for e in ev if e[0] not in ('states', 'pending')]
+            if bad:
+                interference.append((idx, op, bad[:3]))
+            if view and ev:
+                # states/pending of A must not move during a step of the other address
+                last = [e for e in view[-1][1] if e[0] in ('states', 'pending')]
+                if [e for e in ev if e[0] in ('states', 'pending')] != last:
+                    interference.append((idx, op, 'state or timers of %s changed' % A))
+    return view, interference, (prank, trank, drank)
+
+
+def _c19_solo(trace, lines, A, addr_of, timer_owner):
+    """replay only A's operations on a fresh factory (protocol/timer indices re-ranked, acknowledgement ids translated)"""
+    prs = sorted(p for p, a in addr_of.items() if a == A)
+    prank = {p: i for i, p in enumerate(prs)}
+    w = realworld.RealWorld(int(lines[0].split()[1]))
+    out_lines = [lines[0]]
+    out_trace = [(lines[0], [])]
+    tmap = {}          # combined timer id -> solo timer id (creation order among A's timers)
+    a_timers = sorted(t for t, o in timer_owner.items() if o in prank)
+    idmap = {}         # combined msgId -> solo msgId
+    seen_solo_timers = 0
+    prev_now_next = 0
+    for (op, obs) in trace[1:]:
+        t = op.split()
+        new = None
+        prev_now = prev_now_next
+        for o in obs:
+            if o.startswith('now'):
+                prev_now_next = int(o.split()[1])
+        if t[0] == 'build':
+            if t[1] == A:
+                new = op
+        elif t[0] == 'jit':
+            new = op
+        elif t[0] == 'fire':
+            if timer_owner.get(int(t[1])) in prank:
+                k = a_timers.index(int(t[1]))
+                solo_ids = sorted(dc._vid for dc in realworld.CLOCK.allcalls)
+                if k >= len(solo_ids):
+                    return None
+                new = 'fire %d' % solo_ids[k]
+        elif len(t) > 1 and t[1].isdigit() and int(t[1]) in prank:
+            t2 = list(t); t2[1] = str(prank[int(t[1])])
+            if t[0] == 'recv':
+                data = bytes.fromhex(t[2]) if t[2] != '-' else b''
+                pks, rest = mqttparse.split_stream(data)
+                if rest:       # C19 walks deliver whole packets
+                    return None
+                outb = b''
+                for pkb in pks:
+                    pk = mqttparse.parse(pkb)
+                    if pk and pk['type'] in ('PUBACK', 'PUBREC', 'PUBCOMP', 'SUBACK', 'UNSUBACK'):
+                        # identifiers issued to A are translated; any other identifier must stay foreign to A when it runs alone
+                        i = idmap.get(pk['id'], 60000 + pk['id'] % 5000)
+                        n = 1
+                        while pkb[n] & 0x80:
+                            n += 1
+                        pkb = pkb[:n + 1] + bytes([i >> 8, i & 255]) + pkb[n + 3:]
+                    outb += pkb
+                t2[2] = hx(outb)
+            new = ' '.join(t2)
+        if new is None:
+            continue
+        # the same instant as in the combined run: time that passed through the other address's timers has passed here too
+        pre_now = None
+        w.step('advance %d' % prev_now)
+        sobs = w.step(new)
+        out_lines.append(new); out_trace.append((new, sobs))
+        for a, b in zip([o for o in obs if o.startswith('ret pending')], [o for o in sobs if o.startswith('ret pending')]):
+            ca, cb = a.split()[3], b.split()[3]
+            if ca != '-' and cb != '-':
+                idmap[int(ca)] = int(cb)
+    return out_lines, out_trace
+
+
+def c19(ctx):
+    res = Result()
+    res.rule = ('pairs of seeded walks interleaved on two addresses through one factory (loss and clean/persistent reconnect on either side while the other is mid-exchange); for each '
+                'address A the combined run, projected on A (identifiers, Deferreds, timers and protocols renamed by order of first appearance, timer delays instead of absolute '
+                'times), is compared step by step with the operations of A replayed alone on a fresh factory; steps of the other address must leave the writes, Deferreds of A,, state and '
+                'timers untouched; the combined run is also compared with the Lean model; identifiers of unfinished requests must never collide (C17 monitor)')
+    n = 120 if ctx['tier'] == 'quick' else 3000
+    if ctx.get('replay'):
+        scen = [('replay', ctx['replay']['scenario'], None)]
+    else:
+        W = dict(QUIET, chunked=0, dupack=0, publish=16, puback=7, pubrec=6, pubcomp=5, subscribe=5, unsubscribe=4, suback=4, unsuback=3, inpub=6, pubrel=4, lost=5, fire=10, build=8, pingresp=2)
+        scen = walks(ctx, n, 70, 19000, weights=W, naddr=2, profiles=(3, 3, 2, 1), keepalives=(0, 0, 2, 5))
+        scen = corpus_scenarios('C19') + scen
+    for item in scen:
+        name, lines = item[0], item[1]
+        tr = item[2] if len(item) > 2 and item[2] is not None else realworld.run_scenario(lines)
+        res.programs += 1; res.evaluations += 1
+        addr_of, timer_owner, dfd_owner = _c19_owner_maps(tr)
+        addrs = sorted(set(addr_of.values()))
+        if len(addrs) >= 2:
+            res.distinct.add(_digest(lines))
+        for A in addrs:
+            view, interference, _ = _c19_view(tr, A, addr_of, timer_owner, dfd_owner)
+            for (idx, op, what) in interference[:1]:
+                res.violations.append(dict(signature='interference', scenario=lines[:idx + 1],
+                                           what='a step of another address (`%s`) had effects on address %s: %s (walk %s)' % (op[:40], A, what, name)))
+            solo = _c19_solo(tr, lines, A, addr_of, timer_owner)
+            if solo is None:
+                continue
+            slines, strace = solo
+            res.programs += 1
+            sa, st_, sd = _c19_owner_maps(strace)
+            sview, _, _ = _c19_view(strace, A, sa, st_, sd)
+            if view != sview:
+                i = next((j for j, (x, y) in enumerate(zip(view, sview)) if x != y), min(len(view), len(sview)))
+                a = view[i] if i < len(view) else None
+                b = sview[i] if i < len(sview) else None
+                da = [e for e in (a[1] if a else []) if b is None or e not in b[1]][:3]
+                db = [e for e in (b[1] if b else []) if a is None or e not in a[1]][:3]
+                res.violations.append(dict(signature='differs-from-solo', scenario=lines, solo=slines, address=A,
+                                           what='address %s behaves differently next to another address than alone: at its step %d (%s): together %s / alone %s (walk %s)'
+                                                % (A, i, a[0] if a else '-', da, db, name)))
+        # identifiers never collide across addresses
+        for v in monitors.run_monitors(tr, want={'C17'}):
+            res.violations.append(dict(signature='id-' + v.sig, scenario=lines[:v.step + 1], what='%s (walk %s)' % (v.msg, name)))
+    if ctx['model_ok'] and not ctx.get('replay'):
+        run = [(it[0], it[1], it[2] if len(it) > 2 else None) for it in scen]
+        models = corr.run_model([it[1] for it in run])
+        ndiv = 0
+        for it, m in zip(run, models):
+            tr = it[2] if it[2] is not None else realworld.run_scenario(it[1])
+            d = first_divergence(it[1], [o for (_, o) in tr], m, ALPHABET['C19'])
+            if d:
+                ndiv += 1
+                if len(res.divergences) < 5:
+                    res.divergences.append(dict(what='correspondence (C19 alphabet) breaks at step %d `%s`: real %s | model %s' % (d[0], it[1][d[0]][:50], d[1][:5], d[2][:5]), scenario=it[1][:d[0] + 1]))
+        res.extra['model_scenarios_compared'] = len(run)
+    if scen:
+        res.sample(scen[-1][1][:16])
+    res.assumptions = ['Env as for the other session properties; one not-yet-lost protocol per address; whole packets per dataReceived in these walks (chunking is the subject of C03)']
+    return res
